@@ -99,6 +99,8 @@ def conformant(block_type, headers):
     if b":protocol" in seen_pseudo and method != b"CONNECT":
         return False, ":protocol outside CONNECT"
     if len(hosts) > 1:
+        if authority is not None and any(h != authority for h in hosts):
+            return False, ":authority and one of several Host fields disagree"
         return UNSPECIFIED, "duplicate Host fields"
     if authority is None and not hosts:
         return False, "request with neither :authority nor Host"
@@ -181,6 +183,8 @@ def outbound_rules_only(block_type, headers):
     if b":protocol" in seen_pseudo and method != b"CONNECT":
         return False, ":protocol outside CONNECT"
     if len(hosts) > 1:
+        if authority is not None and any(h != authority for h in hosts):
+            return False, ":authority and one of several Host fields disagree"
         return UNSPECIFIED, "duplicate Host fields"
     if authority is None and not hosts:
         return False, "request with neither :authority nor Host"
